@@ -277,6 +277,19 @@ async def neighbour_episode(loop, timeline, own: set, eavesdrop: bool, schema=No
     return v
 
 
+async def predecessor_episode(loop, timeline, known: dict) -> None:
+    if not known:
+        return
+    rig = gwrig.Rig(loop, config={"enforce_known_list": True}, known_list={**known, gwrig.GWY_ID: {"class": "HGI"}})
+    await rig.start()
+    for t, fr in timeline:
+        d = t - loop.time()
+        if d > 0:
+            await asyncio.sleep(d)
+        await rig.feed(fr)
+    await rig.stop()
+
+
 def neighbours(chk: Check, rnd: random.Random, logs: dict, n: int) -> None:
     """"Packets that are valid for other systems never stop the gateway from continuing to track the ones it knows": the same
     own traffic at the same instants, once alone and once with a neighbour's traffic (another log, no device id in common, never
@@ -319,6 +332,13 @@ def neighbours(chk: Check, rnd: random.Random, logs: dict, n: int) -> None:
         from ramses_tx.address import dev_id_to_hex_id
 
         own_hex = {dev_id_to_hex_id(i) for i in own}
+        if tries % 3 == 0:
+            # our controller names the devices of a zone or two (what it answers to RQ|000C; few of the repo's logs hold one)
+            c0 = sorted(i for i in own if i.startswith("01:"))[0]
+            kit = sorted(i for i in own if i[:2] in ("04", "34", "22", "12"))
+            for z, dv in enumerate(kit[:2]):
+                role = "00" if dv[:2] == "04" else "04"
+                own_rows.insert(min(len(own_rows), 1 + z), f"RP --- {c0} {gwrig.GWY_ID} --:------ 000C 006 {z:02X}{role}00{dev_id_to_hex_id(dv)}")
         foreign = [f for f in foreign_all if " 18:" not in f[:36] and not any(h in f[46:] for h in own_hex)]
         if twin_turn := (tries % 2 == 0):
             # the neighbour is a twin of our own system: the same kit (so the same verbs and codes, arrays included) under other
@@ -371,6 +391,17 @@ def neighbours(chk: Check, rnd: random.Random, logs: dict, n: int) -> None:
         eav = False     # (eavesdropping *infers* zone sensors from every temperature it hears, a neighbour's included: not scored here)
         try:
             va, _ = gwrig.run(lambda loop: neighbour_episode(loop, tl_own, own, eav, schema))
+            if tries % 3 == 0:
+                # ... another gateway object of this very process heard everything first, its known list enforced and narrower
+                # than ours (the neighbour's devices and the controllers only - an earlier configuration, a second integration):
+                # it refuses what is not on its list, e.g. the zone devices our controller's RP|000C names
+                def _pred(loop):
+                    kn = {i: {} for f in foreign for i in addr_ids(f) if not i.startswith("18:") and i != "63:262142"}
+                    kn.update({i: {} for i in own if i[:2] in ("01", "23")})
+                    return predecessor_episode(loop, both, kn)
+
+                gwrig.run(_pred)
+                chk.count("neighbour.cases_after_a_neighbours_gateway_in_the_process")
             vb, _ = gwrig.run(lambda loop: neighbour_episode(loop, both, own, eav, schema))
         except Exception as e:  # noqa: BLE001
             chk.violation(f"c13.neighbour.gateway_died:{type(e).__name__}", f"the gateway run itself raised {e!r}", {"op": "neighbour", "own": tl_own, "foreign": tl_for})
